@@ -4,6 +4,7 @@ import (
 	"bytes"
 	"fmt"
 	"math/rand"
+	"reflect"
 	"strings"
 
 	"github.com/fxamacker/cbor/v2"
@@ -199,6 +200,13 @@ var rawCodec = payloadCodec[[]byte]{
 var rawMsgCodec = payloadCodec[cbor.RawMessage]{
 	mk:   func(t []string) cbor.RawMessage { return cbor.RawMessage(unhxOpt(t[0])) },
 	dump: func(b cbor.RawMessage) string { return hxOpt(b) },
+}
+
+// a payload type that is a *named* byte-slice type (key.ByteStr; an application's `type Blob []byte`): not []byte, not
+// cbor.RawMessage, so it travels as a CBOR byte string inside the payload member
+var namedCodec = payloadCodec[key.ByteStr]{
+	mk:   func(t []string) key.ByteStr { return key.ByteStr(unhxOpt(t[0])) },
+	dump: func(b key.ByteStr) string { return hxOpt(b) },
 }
 var typedCodec = payloadCodec[key.CoseMap]{
 	mk: func(t []string) key.CoseMap {
@@ -514,45 +522,73 @@ func consumeT[T any](c payloadCodec[T], a *msgArgs) string {
 	return "bad-op"
 }
 
+// reencode: decode -> encode.  The decoded object owns what it holds: the input buffer is overwritten afterwards (a
+// receive buffer is reused, a secret is wiped) and the object must still encode to the same bytes, also through Bytesify.
 func reencode(kind string, data []byte) string {
-	var out []byte
-	var err error
-	switch kind {
-	case "sign1":
-		m := &cose.Sign1Message[[]byte]{}
-		if err = m.UnmarshalCBOR(data); err == nil {
-			out, err = m.MarshalCBOR()
+	type codec interface {
+		UnmarshalCBOR([]byte) error
+		MarshalCBOR() ([]byte, error)
+		Bytesify() []byte
+	}
+	fresh := func() codec {
+		switch kind {
+		case "sign1":
+			return &cose.Sign1Message[[]byte]{}
+		case "sign":
+			return &cose.SignMessage[[]byte]{}
+		case "mac0":
+			return &cose.Mac0Message[[]byte]{}
+		case "mac":
+			return &cose.MacMessage[[]byte]{}
+		case "encrypt0":
+			return &cose.Encrypt0Message[[]byte]{}
+		case "encrypt":
+			return &cose.EncryptMessage[[]byte]{}
 		}
-	case "sign":
-		m := &cose.SignMessage[[]byte]{}
-		if err = m.UnmarshalCBOR(data); err == nil {
-			out, err = m.MarshalCBOR()
-		}
-	case "mac0":
-		m := &cose.Mac0Message[[]byte]{}
-		if err = m.UnmarshalCBOR(data); err == nil {
-			out, err = m.MarshalCBOR()
-		}
-	case "mac":
-		m := &cose.MacMessage[[]byte]{}
-		if err = m.UnmarshalCBOR(data); err == nil {
-			out, err = m.MarshalCBOR()
-		}
-	case "encrypt0":
-		m := &cose.Encrypt0Message[[]byte]{}
-		if err = m.UnmarshalCBOR(data); err == nil {
-			out, err = m.MarshalCBOR()
-		}
-	case "encrypt":
-		m := &cose.EncryptMessage[[]byte]{}
-		if err = m.UnmarshalCBOR(data); err == nil {
-			out, err = m.MarshalCBOR()
-		}
-	default:
+		return nil
+	}
+	m := fresh()
+	if m == nil {
 		return "bad-op"
 	}
+	buf := append(make([]byte, 0, len(data)+8), data...)
+	if err := m.UnmarshalCBOR(buf); err != nil {
+		return "err"
+	}
+	out, err := m.MarshalCBOR()
 	if err != nil {
 		return "err"
+	}
+	for i := range buf {
+		buf[i] ^= 0x5a
+	}
+	out2, err2 := m.MarshalCBOR()
+	if err2 != nil || string(out2) != string(out) || string(m.Bytesify()) != string(out) {
+		return "ok " + hx(out) + " DECODED-OBJECT-FOLLOWS-ITS-INPUT-BUFFER"
+	}
+	// two objects decoded from the same octets share nothing: editing the header maps of one leaves the other alone
+	m2 := fresh()
+	if m2.UnmarshalCBOR(append([]byte{}, data...)) != nil {
+		return "ok " + hx(out) + " SECOND-DECODE-FAILED"
+	}
+	for _, f := range []string{"Protected", "Unprotected"} {
+		if h, ok := reflect.ValueOf(m).Elem().FieldByName(f).Interface().(cose.Headers); ok && h != nil {
+			h[-70001] = "edited"
+			h[iana.HeaderParameterAlg] = -70002
+		}
+	}
+	for _, f := range []string{"Protected", "Unprotected"} {
+		if h, ok := reflect.ValueOf(m2).Elem().FieldByName(f).Interface().(cose.Headers); ok && h != nil {
+			if h.Has(-70001) {
+				return "ok " + hx(out) + " DECODED-OBJECTS-SHARE-A-HEADER-MAP"
+			}
+			if a, _ := h.GetInt(iana.HeaderParameterAlg); a == -70002 {
+				return "ok " + hx(out) + " DECODED-OBJECTS-SHARE-A-HEADER-MAP"
+			}
+		}
+	}
+	if string(m2.Bytesify()) != string(out) {
+		return "ok " + hx(out) + " DECODED-OBJECTS-SHARE-STATE"
 	}
 	return "ok " + hx(out)
 }
@@ -574,6 +610,11 @@ func dispatchMode(a *msgArgs, produce bool) string {
 			return produceT(typedCodec, a)
 		}
 		return consumeT(typedCodec, a)
+	case "named":
+		if produce {
+			return produceT(namedCodec, a)
+		}
+		return consumeT(namedCodec, a)
 	case "gomap":
 		if !produce {
 			return consumeT(typedCodec, a)
